@@ -1,11 +1,12 @@
-\* C33 leg A quick: 2 blocks, <= 2 phases per iteration, 2 iterations, <= 3 mutations, one failing read anywhere;
-\* generated cases: the j-th sync read of each kind fails, j <= 8
+\* C33 leg A quick: 2 blocks, 3-stage sync (call and body steps), <= 2 phases per iteration, 2 iterations, <= 3 mutations, one failing step anywhere;
+\* generated cases: the j-th sync read of each kind (call or body; body at byte 0 / middle / last) fails, j <= 8
 SPECIFICATION Spec
 CONSTANTS NBlocks = 2
           MaxPhases = 2
           MaxIters = 2
           MaxMuts = 3
           MaxFaults = 1
+          CaseBodyJ = 3
           CaseJ = 8
 INVARIANTS C33_NoMutationOnIncompleteView ActMeansCleanSync
 CHECK_DEADLOCK FALSE
